@@ -17,7 +17,7 @@ PROPS = {"C08": "C08"}
 CLAIMS = {
     "C08": dict(
         technique="TLA+ Sample spec: TLC model checking of the sampling definitions + TLC-generated and seeded call "
-                  "sequences executed on the real library under five implementation chains + trace validation by TLC",
+                  "sequences executed on the real library under six implementation chains + trace validation by TLC",
         text="spec/Sample.tla defines the sample position of a destination pixel centre (affine: exact product rounded "
              "to 1/65536; projective: exact rational quotient with a band of 2 units), the nearest / bilinear (7-bit "
              "weights) / convolution / separable-convolution reference and the four repeat modes. TLC checks the "
@@ -29,7 +29,8 @@ CLAIMS = {
         ref="5 C08"),
 }
 
-CHAINS = ["", "ssse3", "sse2 ssse3", "mmx sse2 ssse3", "fast mmx sse2 ssse3"]
+# the last chain leaves only the SSSE3 iterators above the general implementation
+CHAINS = ["", "ssse3", "sse2 ssse3", "mmx sse2 ssse3", "fast mmx sse2 ssse3", "fast mmx sse2"]
 ONE = 65536
 REPEATS = ["none", "normal", "pad", "reflect"]
 FORMATS = ["a8r8g8b8", "a8r8g8b8", "a8r8g8b8", "x8r8g8b8", "r5g6b5", "a8"]
@@ -221,6 +222,37 @@ def fetch_lines(rng, m, w, h, count, wide):
     return out
 
 
+def cover_exec(rng, name):
+    """requests that lie inside the source (the COVER fast paths and the SSE2 / SSSE3 main loops): larger
+    a8r8g8b8 / x8r8g8b8 / r5g6b5 / a8 sources, pure scale + translation, requests inside the pre-image"""
+    fmt = rng.choice(["a8r8g8b8", "a8r8g8b8", "a8r8g8b8", "x8r8g8b8", "r5g6b5", "a8"])
+    w, h = rng.choice([(8, 5), (12, 3), (17, 4), (33, 3)])
+    out = ["R %s" % name, "I %s %d %d %s" % (fmt, w, h, " ".join(map(str, image_pixels(rng, fmt, w, h))))]
+    for _ in range(rng.randint(2, 4)):
+        sx = rng.choice([ONE // 3, ONE // 2, 2 * ONE // 3 + 1, ONE, ONE, 3 * ONE // 2, 2 * ONE, ONE - 1, ONE + 1, 52429])
+        sy = rng.choice([sx, ONE, ONE // 2, 2 * ONE])
+        tx = rng.choice([0, 1, -1, ONE // 2, ONE // 4, ONE // 3, 3 * ONE // 4 + 1])
+        ty = rng.choice([0, 1, -1, ONE // 2, ONE // 4 + 1])
+        m = [[sx, 0, tx], [0, sy, ty], [0, 0, ONE]]
+        out.append("T " + " ".join(str(v) for r in m for v in r))
+        out.append("F " + rng.choice(["nearest", "bilinear", "bilinear"]) + " 0")
+        out.append("P " + rng.choice(REPEATS))
+        # destination range whose samples (and bilinear neighbours) stay inside: 1 <= sx * (x + 1/2) + tx <= w - 1
+        xlo = -((tx - ONE) // sx) + 1
+        xhi = ((w - 1) * ONE - tx) // sx - 1
+        ylo = -((ty - ONE) // sy) + 1
+        yhi = ((h - 1) * ONE - ty) // sy - 1
+        for _k in range(rng.randint(2, 4)):
+            n = rng.choice([1, 2, 3, 4, 5, 7, 8, 9, 13, 16, 21])
+            n = max(1, min(n, xhi - xlo + 1))
+            rows = max(1, min(rng.choice([1, 2, 3]), yhi - ylo + 1))
+            x0 = rng.randint(xlo, max(xlo, xhi - n + 1))
+            y0 = rng.randint(ylo, max(ylo, yhi - rows + 1))
+            role = "mask" if rng.random() < 0.2 else "src"
+            out.append("C %s %d %d %d %d %d" % (role, x0, y0, n, rows, rng.choice([0, 0, 1, 2, 3])))
+    return out
+
+
 def filter_line(rng, kind, kers):
     if kind == "nearest":
         return "F nearest 0"
@@ -259,6 +291,41 @@ def random_exec(rng, name, thorough):
                 out.append("P " + rng.choice(REPEATS))
         out += fetch_lines(rng, m, w, h, 2 if heavy else rng.randint(2, 4), wide=(w >= 9))
     return out
+
+
+def directed_execs():
+    """fixed executions (independent of the seed) for the cases the statement's rationale names"""
+    ex = []
+    # negative source coordinates under a projective transform (w = 1 + x/64): destination pixel 0 maps to
+    # source x = -1.5/1.0078, outside a REPEAT_NONE image -> transparent; pixels 2, 3 map inside
+    ex.append(["R dir_proj_negative", "I a8r8g8b8 2 1 4294901760 4278255360",
+               "T 65536 0 -131072 0 65536 0 1024 0 65536", "P none", "F nearest 0", "C src 0 0 6 1 0",
+               "F bilinear 0", "C src 0 0 6 1 0", "C src -4 0 8 1 1", "P pad", "C src -4 0 8 1 0",
+               "P reflect", "C src -6 0 12 1 0", "P normal", "F nearest 0", "C src -6 0 12 1 0"])
+    # w changing sign inside the row (w = 1 - x/64 crosses 0 between destination x = 63 and 64), negative w
+    ex.append(["R dir_proj_w_sign", "I a8r8g8b8 3 2 4294901760 4278255360 4278190335 2164260863 8421504 4294967295",
+               "T 65536 0 0 0 65536 0 -1024 0 65536", "P normal", "F nearest 0", "C src 58 0 12 2 0",
+               "F bilinear 0", "C src 58 0 12 1 0", "P reflect", "C src 60 -1 8 2 0", "P pad", "C src 61 0 6 1 0",
+               "T -65536 0 0 0 -65536 0 0 0 -65536", "P none", "C src -1 -1 5 3 0",
+               "T 65536 0 0 0 65536 0 0 -1024 65536", "P normal", "C src 0 60 3 8 0"])
+    # kernels with negative coefficients: a negative total must clamp to 0
+    ex.append(["R dir_conv_negative", "I a8r8g8b8 3 2 4294967295 0 4294967295 0 4294967295 0", "T 65536 0 1 0 65536 0 0 0 65536",
+               "F convolution 11 196608 196608 0 -65536 0 -65536 327680 -65536 0 -65536 0", "P none", "C src -1 -1 5 4 0",
+               "P pad", "C src -1 -1 5 4 0", "P normal", "C src -2 -1 7 3 0", "P reflect", "C src -2 -1 7 3 0",
+               "S 5 5 0 0 65536 65536 1 1", "C src -2 -1 7 3 0", "P none", "C src -2 -1 7 3 0"])
+    # 1x1 images: REFLECT / NORMAL / PAD on size-1 axes; a kernel whose coefficients sum to 3
+    ex.append(["R dir_size1", "I a8r8g8b8 1 1 2155888736", "P reflect", "F bilinear 0",
+               "T 43691 0 1 0 65536 -1 0 0 65536", "C src -3 -2 7 3 0", "P normal", "C src -3 -2 7 3 0",
+               "P none", "C src -3 -2 7 4 0", "F convolution 6 131072 131072 65536 32768 32768 65536", "C src -2 -2 5 4 0",
+               "P pad", "C src -2 -2 5 4 0", "P reflect", "C mask -2 -2 5 4 0"])
+    # sample positions exactly on pixel boundaries and one unit either side; even kernels
+    for e in (-1, 0, 1):
+        ex.append(["R dir_boundary_%d" % (e + 1), "I a8r8g8b8 3 2 4294901760 4278255360 4278190335 2164260863 8421504 4294967295",
+                   "T 65536 0 %d 0 65536 %d 0 0 65536" % (32768 + e, -32768 + e), "F nearest 0", "P none", "C src -2 -1 7 4 0",
+                   "P reflect", "C src -5 -3 12 3 1", "F bilinear 0", "C src -5 -3 12 3 1", "P none", "C src -2 -1 7 4 0",
+                   "F convolution 6 131072 131072 16384 16384 16384 16384", "C src -2 -1 7 4 0", "P reflect", "C src -5 -3 12 3 0",
+                   "F convolution 4 131072 65536 49152 16384", "P normal", "C src -5 -3 12 3 0"])
+    return ex
 
 
 # ------------------------------------------------------------------------------------------
@@ -328,11 +395,19 @@ def count_events(chk, tracefile, chain):
 
 
 def mc(chk, tier):
+    from concurrent.futures import ThreadPoolExecutor
     base = os.path.join(vf.SPEC, "mc")
-    cfgs = [("SampleMC.cfg", False), ("SampleMC_neg_reflect.cfg", True), ("SampleMC_neg_tie.cfg", True)]
-    for cfg, neg in cfgs:
-        r = vf.tlc_mc(os.path.join(base, "SampleMC.tla"), cfg=os.path.join(base, cfg), workers=8, timeout=900,
-                      expect_violation=neg)
+    cfgs = [("SampleMC.cfg", False), ("SampleMC_neg_reflect.cfg", True), ("SampleMC_neg_tie.cfg", True),
+            ("SampleMC_neg_kernel.cfg", True)]
+
+    def one(c):
+        cfg, neg = c
+        return vf.tlc_mc(os.path.join(base, "SampleMC.tla"), cfg=os.path.join(base, cfg), workers=4 if not neg else 2,
+                         timeout=1200, expect_violation=neg, tag=cfg[:-4])
+
+    with ThreadPoolExecutor(max_workers=4) as ex:
+        results = list(ex.map(one, cfgs))
+    for (cfg, neg), r in zip(cfgs, results):
         chk.add_tlc(r, ("negative config (must be rejected) " if neg else "model check ") + cfg)
         if not neg and (r.inv_violation or r.deadlock):
             raise vf.Infra("the Sample model itself violates an invariant under %s:\n%s" % (cfg, r.out[-2500:]))
@@ -351,7 +426,8 @@ def run(prop, args):
     rng = random.Random(args.seed * 1000003 + 8)
     quick = args.tier == "quick"
     wd = vf.workdir("sample")
-    cfg = os.path.join(vf.SPEC, "trace", "SampleTrace.cfg")
+    # Deviations = ids of the OPEN known findings of C08 (none: the three defects found are fixed in /repo)
+    cfg = vf.cfg_with_deviations(os.path.join(vf.SPEC, "trace", "SampleTrace.cfg"), "C08")
 
     if args.replay:
         exe, px = vf.build_driver("drv_sample", "plain")
@@ -369,14 +445,18 @@ def run(prop, args):
 
     # 2. scripts
     execs = []
-    behs, r = tlc_behaviours(40 if quick else 240, 8 if quick else 10, args.seed)
+    behs, r = tlc_behaviours(40 if quick else 400, 12 if quick else 14, args.seed)
     chk.add_tlc(r, "behaviour generation (SampleGen, -generate)")
     chk.sample({"tlc_generated_behaviour": behs[0][:5]})
     for k, beh in enumerate(behs):
         execs.append(behaviour_script(beh, "gen%d" % k))
-    nrand = 60 if quick else 420
+    execs += directed_execs()
+    nrand = 200 if quick else 3000
     for i in range(nrand):
-        execs.append(random_exec(rng, "rnd%d" % i, thorough=not quick))
+        if i % 4 == 3:
+            execs.append(cover_exec(rng, "cov%d" % i))
+        else:
+            execs.append(random_exec(rng, "rnd%d" % i, thorough=not quick))
     chk.extra["executions_per_chain"] = len(execs)
     chk.extra["tlc_generated_behaviours"] = len(behs)
     chk.extra["chains"] = ["PIXMAN_DISABLE='%s'" % c for c in CHAINS]
@@ -384,7 +464,7 @@ def run(prop, args):
     # 3. execute on the real library (built from /repo's working tree), one process per implementation chain
     exe, px = vf.build_driver("drv_sample", "plain")
     chk.extra["build"] = px["hash"]
-    nb = 3 if quick else 6
+    nb = 2 if quick else 8
     traces = []
     chain_of = {}
     for bi in range(nb):
